@@ -274,6 +274,24 @@ impl Compiler {
         Ok(())
     }
 
+    /// Compiles a block that is used for its value: leaves exactly one value on the stack,
+    /// the value of the last statement if that is an expression and null otherwise.
+    fn compile_block_value(&mut self, stmts: &[Stmt]) -> Result<(), Error> {
+        self.compile_block_statement(stmts)?;
+
+        // an empty block already pushed its null
+        if stmts.is_empty() {
+            return Ok(());
+        }
+
+        if self.last_instruction_is(OpCode::Pop) {
+            self.remove_last_instruction();
+        } else {
+            self.emit_opcode(OpCode::Null);
+        }
+        Ok(())
+    }
+
     fn compile_statement(&mut self, stmt: &Stmt) -> Result<(), Error> {
         match stmt {
             Stmt::Expr(expr) => {
@@ -544,11 +562,7 @@ impl Compiler {
                 self.emit_opcode(OpCode::JumpIfFalse);
                 self.emit_u16(JUMP_PLACEHOLDER);
 
-                self.compile_block_statement(consequence)?;
-
-                if self.last_instruction_is(OpCode::Pop) {
-                    self.remove_last_instruction();
-                }
+                self.compile_block_value(consequence)?;
 
                 let pos_jump = self.instructions.len();
                 self.emit_opcode(OpCode::Jump);
@@ -560,10 +574,7 @@ impl Compiler {
                 );
 
                 if let Some(alternative) = alternative {
-                    self.compile_block_statement(alternative)?;
-                    if self.last_instruction_is(OpCode::Pop) {
-                        self.remove_last_instruction();
-                    }
+                    self.compile_block_value(alternative)?;
                 } else {
                     self.emit_opcode(OpCode::Null);
                 }
@@ -583,13 +594,7 @@ impl Compiler {
                 self.emit_opcode(OpCode::JumpIfFalse);
                 self.emit_u16(JUMP_PLACEHOLDER);
                 self.emit_opcode(OpCode::Pop);
-                self.compile_block_statement(body)?;
-
-                if self.last_instruction_is(OpCode::Pop) {
-                    self.remove_last_instruction();
-                } else {
-                    self.emit_opcode(OpCode::Null);
-                }
+                self.compile_block_value(body)?;
 
                 // emit jump instruction to loop condition
                 self.emit_opcode(OpCode::Jump);
